@@ -171,7 +171,9 @@ fn merge_evidence(parts: Vec<(&str, serde_json::Value)>) -> serde_json::Value {
 }
 
 fn report_known_findings(a: &Args) -> Result<(), String> {
-    let path = format!("{}/known_findings.json", a.out_dir);
+    // next to the engines (…/tasksim/target/release/tasksim -> …/known_findings.json), not in --out
+    let root = std::env::current_exe().ok().and_then(|e| e.ancestors().nth(4).map(|p| p.to_path_buf())).unwrap_or_else(|| a.out_dir.clone().into());
+    let path = format!("{}/known_findings.json", root.display());
     let Ok(text) = std::fs::read_to_string(&path) else { return Ok(()) };
     let doc: serde_json::Value = serde_json::from_str(&text).map_err(|e| format!("{path}: {e}"))?;
     for f in doc["findings"].as_array().cloned().unwrap_or_default() {
